@@ -172,6 +172,9 @@ func findHarnesses(p *Program, prop, only string, tier int, cfgs map[string]harn
 			if c.MaxPaths != 0 {
 				h.MaxPaths = c.MaxPaths
 			}
+			if ov := os.Getenv("GOSYM_MAXPATHS"); ov != "" {
+				fmt.Sscan(ov, &h.MaxPaths)
+			}
 			hs = append(hs, h)
 		}
 	}
